@@ -479,8 +479,10 @@ def run(ctx):
             total += n
             for what, detail in fails[:1]:
                 nf += 1
-                ctx.violation(f'statistic does not equal its defining formula: {what}',
-                              {'stats': {'part': part, 'seed': seed}, 'detail': detail})
+                what = ('tool statistic raises on valid input: ' + part) if what == 'exception' else \
+                    f'statistic does not equal its defining formula: {what}'
+                ctx.violation(what, {'stats': {'part': part, 'seed': seed}, 'detail': detail,
+                                     'input': describe_input(lambda: dict(PARTS)[part](random.Random(seed), lambda *a: None))})
         out[part] = {'sets': reps[part], 'values_compared': total, 'failures': nf}
     reproduced, detail = probe_cook_positional()
     if reproduced:
@@ -645,27 +647,92 @@ def model_case(rng, kind, ids):
     raise ValueError(kind)
 
 
+def describe_case(kind, seed):
+    """the generated input of a modelled-statistics case, for the replay file"""
+    return describe_input(lambda: model_case(random.Random(seed), kind, lambda x: '1%positive'))
+
+
+def describe_input(gen):
+    """runs a case generator with the tool functions replaced by recorders: the arguments of the first tool call"""
+    import pandas as pd
+    rec = []
+
+    class Stop(Exception):
+        pass
+
+    def recorder(name):
+        def f(*a, **k):
+            def show(x):
+                if isinstance(x, (pd.Series, pd.DataFrame)):
+                    return x.to_dict()
+                if isinstance(x, (list, tuple)):
+                    return [show(y) for y in x]
+                if hasattr(x, 'parameter_estimates'):
+                    pe = x.parameter_estimates
+                    return {'parameter_estimates': None if pe is None else pe.to_dict()}
+                return repr(x)[:200]
+            rec.append({'call': name, 'args': [show(x) for x in a], 'kwargs': {kk: show(v) for kk, v in k.items()}})
+            raise Stop()
+        return f
+    import pharmpy.internals.math as pim
+    import pharmpy.modeling as pmod
+    import pharmpy.tools.bootstrap.results as pb
+    import pharmpy.tools.cdd.results as pc
+    import pharmpy.tools.simeval.results as psim
+    saved = [(psim, 'calculate_results'), (pc, 'compute_covariance_ratios'), (pc, 'compute_delta_ofv'), (pb, 'calculate_results'), (pc, 'compute_cook_scores'), (pc, 'compute_jackknife_covariance_matrix'),
+             (pmod, 'calculate_eta_shrinkage'), (pmod, 'calculate_individual_shrinkage'), (pim, 'se_delta_method')]
+    olds = [(m, n, getattr(m, n)) for m, n in saved]
+    try:
+        for m, n in saved:
+            setattr(m, n, recorder(n))
+        try:
+            gen()
+        except Stop:
+            pass
+        except Exception as e:
+            rec.append({'describe_failed': repr(e)[:200]})
+    finally:
+        for m, n, o in olds:
+            setattr(m, n, o)
+    return rec
+
+
 def model_batch(ctx, n):
     """cases of the MODELLED statistics, compared inside Coq"""
     from harness.lib import coqterm as ct
     names = ct.Names()
     ids = lambda s: names.p(str(s))
     kinds = ['boot', 'boot', 'jack', 'cook', 'shrink', 'ishr', 'delta']
-    terms, ks = [], []
+    terms, ks, seeds = [], [], []
+    nraise = 0
     for i in range(n):
         k = kinds[i % len(kinds)]
-        terms.append(model_case(random.Random(f'{ctx.seed}-statmodel-{k}-{i}'), k, ids))
+        seed = f'{ctx.seed}-statmodel-{k}-{i}'
+        try:
+            term = model_case(random.Random(seed), k, ids)
+        except Exception as e:
+            # the generated inputs are valid for every tool: an exception out of the tool function is an oracle failure,
+            # reported with the input (kind + seed regenerate it); the remaining cases are still evaluated
+            import traceback
+            nraise += 1
+            ctx.violation(f'tool statistic raises on valid input: {k} ({type(e).__name__})',
+                          {'stats_model': {'kind': k, 'seed': seed}, 'exception': f'{type(e).__name__}: {e}',
+                           'where': traceback.format_exc().strip().split('\n')[-3:], 'input': describe_case(k, seed)})
+            continue
+        terms.append(term)
         ks.append(k)
+        seeds.append(seed)
     verdicts = ctx.run_cases('statmodel', 'C19.Model C19.Stats', 'stcase', terms, 'stverdict', shard=60)
     nbad = 0
-    for i, (k, v) in enumerate(zip(ks, verdicts)):
+    for k, seed, v in zip(ks, seeds, verdicts):
         if 41 in v:
             ctx.violation('statistic does not equal its documented formula by name: ' + k,
-                          {'stats_model': {'kind': k, 'seed': f'{ctx.seed}-statmodel-{k}-{i}'}, 'tags': v})
+                          {'stats_model': {'kind': k, 'seed': seed}, 'tags': v, 'input': describe_case(k, seed)})
             nbad += 1
         elif v:
-            ctx.broken.append(f'correspondence C19 statistics model vs implementation ({k}, tags {sorted(set(v))}, seed {ctx.seed}-statmodel-{k}-{i})')
+            ctx.broken.append(f'correspondence C19 statistics model vs implementation ({k}, tags {sorted(set(v))}, seed {seed})')
             nbad += 1
-    ctx.coverage['statistics_model_cases'] = {'cases': n, 'by_kind': {k: ks.count(k) for k in sorted(set(ks))}, 'disagreements': nbad}
+    ctx.coverage['statistics_model_cases'] = {'cases': n, 'by_kind': {k: ks.count(k) for k in sorted(set(ks))},
+                                              'tool_raised': nraise, 'disagreements': nbad}
     ctx.coverage['evaluations'] += n
     ctx.log('modelled statistics cases done', ctx.coverage['statistics_model_cases'])
